@@ -15,8 +15,8 @@ def run(ctx):
     ctx.cov["exhaustive"] = True
     # 2. behaviours: all of a tiny instance + seeded simulations (unconstrained feeds, legal feeds)
     behs = behaviours(ctx, SPEC, "MC_ChangeCache", "Beh_ChangeCache.cfg")
-    behs += behaviours(ctx, SPEC, "MC_ChangeCache", "Sim_ChangeCache.cfg", num=25 if q else 250, depth=14)
-    behs += behaviours(ctx, SPEC, "MC_ChangeCache", "Sim_ChangeCache_legal.cfg", num=100 if q else 1000, depth=14)
+    behs += behaviours(ctx, SPEC, "MC_ChangeCache", "Sim_ChangeCache.cfg", num=15 if q else 250, depth=14)
+    behs += behaviours(ctx, SPEC, "MC_ChangeCache", "Sim_ChangeCache_legal.cfg", num=40 if q else 1000, depth=14)
     nseq = len(behs)
     # 3. concurrent variant: the arrivals of simulated behaviours delivered by 2-4 goroutines (final state + forward order)
     rnd = random.Random(ctx.seed)
